@@ -33,6 +33,6 @@ def diff(res, ops, impl_answers):
     model = C.run_driver(ops)
     for op, m, i in zip(ops, model, impl_answers):
         res.evaluations += 1
-        if m != i:
+        if " ".join(m.split()) != " ".join(i.split()):
             res.mismatch(op, m, i)
     return model
